@@ -53,6 +53,22 @@ func mdModes(step *mdStep) (map[string]int, []string) {
 	return m, names
 }
 
+// mdRefresh asks for the refresh the way the behaviour says: a full refresh with no argument, with a nil
+// slice or with an empty non-nil slice; otherwise the listed topics.
+func mdRefresh(cl Client, step *mdStep) error {
+	if len(step.Req) > 0 {
+		return cl.RefreshMetadata(step.Req...)
+	}
+	switch step.How {
+	case "nil":
+		var none []string
+		return cl.RefreshMetadata(none...)
+	case "empty":
+		return cl.RefreshMetadata([]string{}...)
+	}
+	return cl.RefreshMetadata()
+}
+
 // mdPeek reads (only) the candidate lists of the client: endpoint names of the live seeds in
 // order, and of the registered brokers.
 func mdPeek(c *mdCluster, cl Client) (live, known []string) {
@@ -190,7 +206,7 @@ func mdRunCase(c *mdCluster, idx int, mc *mdCase, ver string, st *mdStats) (even
 		c.setModes(modes)
 		ev := kv{"ev": "step", "k": k, "mut": step.Mut, "req": append([]string{}, step.Req...),
 			"down": append([]string{}, step.Down...), "modes": modeNames, "r0": 0, "r1": 0, "conc": []interface{}{}, "nconc": 0,
-			"live": live, "known": known, "hold": step.Hold, "steer": mc.Steer, "nref": 1, "retry": retryMax}
+			"live": live, "known": known, "hold": step.Hold, "steer": mc.Steer, "how": step.How, "nref": 1, "retry": retryMax}
 		var err error
 		var results []string
 		if k == 0 {
@@ -199,7 +215,7 @@ func mdRunCase(c *mdCluster, idx int, mc *mdCase, ver string, st *mdStats) (even
 				cl = nil
 			}
 		} else if mc.Fam == "conc" {
-			conc, r0, r1, n, e := mdConcRound(c, cl, &seq, mdCommonReads(&mc.Steps[k-1].World, &step.World), step.Req)
+			conc, r0, r1, n, e := mdConcRound(c, cl, &seq, mdCommonReads(&mc.Steps[k-1].World, &step.World), step)
 			err = e
 			ev["r0"], ev["r1"], ev["conc"], ev["nconc"] = r0, r1, conc, n
 			st.mu.Lock()
@@ -223,7 +239,7 @@ func mdRunCase(c *mdCluster, idx int, mc *mdCase, ver string, st *mdStats) (even
 				go func(g int) {
 					defer wg.Done()
 					<-start
-					errs[g] = cl.RefreshMetadata(step.Req...)
+					errs[g] = mdRefresh(cl, step)
 				}(g)
 			}
 			if mc.Steer == "openwin" && n == 2 {
@@ -234,13 +250,13 @@ func mdRunCase(c *mdCluster, idx int, mc *mdCase, ver string, st *mdStats) (even
 				parked, release := mdPark.parked, mdPark.release
 				mdPark.mu.Unlock()
 				wg.Add(1)
-				go func() { defer wg.Done(); errs[0] = cl.RefreshMetadata(step.Req...) }()
+				go func() { defer wg.Done(); errs[0] = mdRefresh(cl, step) }()
 				select {
 				case <-parked:
 				case <-time.After(2 * time.Second):
 				}
 				wg.Add(1)
-				go func() { defer wg.Done(); errs[1] = cl.RefreshMetadata(step.Req...) }()
+				go func() { defer wg.Done(); errs[1] = mdRefresh(cl, step) }()
 				time.Sleep(150 * time.Millisecond)
 				mdPark.mu.Lock()
 				mdPark.armed = false
@@ -257,7 +273,7 @@ func mdRunCase(c *mdCluster, idx int, mc *mdCase, ver string, st *mdStats) (even
 				}
 			}
 		} else {
-			err = cl.RefreshMetadata(step.Req...)
+			err = mdRefresh(cl, step)
 		}
 		c.setModes(map[string]int{}) // everybody reachable again for the reads
 		if results == nil {
@@ -336,7 +352,7 @@ func mdRunCase(c *mdCluster, idx int, mc *mdCase, ver string, st *mdStats) (even
 // Every read is stamped with the shared sequence counter before and after the call. Runs of
 // identical consecutive answers of one reader for one key are reduced to their first and last
 // element (the clause is monotone in the stamps, so nothing is lost).
-func mdConcRound(c *mdCluster, cl Client, seq *int64, rs []mdRead, req []string) ([]interface{}, int64, int64, int, error) {
+func mdConcRound(c *mdCluster, cl Client, seq *int64, rs []mdRead, step *mdStep) ([]interface{}, int64, int64, int, error) {
 	const readers = 4
 	var stop int32
 	var wg sync.WaitGroup
@@ -390,7 +406,7 @@ func mdConcRound(c *mdCluster, cl Client, seq *int64, rs []mdRead, req []string)
 	}
 	warm(int64(len(rs)))
 	r0 := atomic.AddInt64(seq, 1)
-	err := cl.RefreshMetadata(req...)
+	err := mdRefresh(cl, step)
 	r1 := atomic.AddInt64(seq, 1)
 	base := make([]int64, readers)
 	for g := range counts {
